@@ -26,7 +26,8 @@ ACCESSORS = {
 }
 # router operations: how the wrapped SubjectRouter is used (C05/C06/C11: a notify on valid observers does not modify the router)
 ROUTER_CALLS = {"m_router.notify": False, "m_router.exists": False, "m_router.depth": False,
-                "m_router.subscribe": True, "m_router.shrink": True, "::unsubscribe": True}
+                "m_router.subscribe": True, "m_router.shrink": True, "::unsubscribe": True,
+                "::mute": True, "::unmute": True, "::isValid": False, "::isMuted": False}
 
 FUNCTIONS = [
     # (component, file, regex of the function header, name)
@@ -102,7 +103,7 @@ def scan(body, name, helpers=()):
         r"(?P<guard>std::(?:scoped_lock|unique_lock|lock_guard)(?:\s*<[^>]*>)?\s+\w+\s*[\(\{]\s*(?:\w+->)?(?P<gm>m_\w+)\s*[\)\}])|"
         r"(?P<rw>rwp::(?P<rwk>ReadLock|WriteLock)\s+\w+\s*[\(\{]\s*(?P<rwm>m_\w+)\s*[\)\}])|"
         r"(?P<lock>(?P<lm>m_\w+)\s*\.\s*(?P<lop>lock|unlock)\s*\(\s*\))|"
-        r"(?P<rcall>m_router\s*\.\s*(?:template\s+)?(?P<rop>\w+)|(?:\w+\s*(?:<[^>]*>)?\s*::\s*)+unsubscribe\s*\()|"
+        r"(?P<rcall>m_router\s*\.\s*(?:template\s+)?(?P<rop>\w+)|(?:\w+\s*(?:<[^>]*>)?\s*::\s*)+(?P<bop>unsubscribe|isValid|isMuted|mute|unmute)\s*\()|"
         r"(?P<acc>(?:(?P<recv>\w+)\s*->\s*)?(?P<fn>isRunning|getExpiryTimeout|getLastActiveTime|setLastActiveTime|isFinished|getActiveThreadCount|getThreadCount)\s*\()|"
         + (r"(?P<helper>(?<![\w.>:])(?P<hn>" + "|".join(map(re.escape, sorted(helpers))) + r")\s*\()|" if helpers else r"(?P<helper>(?P<hn>\b\B))|") +
         r"(?P<pre>(?:\+\+|--)\s*)?(?:(?P<through>\w+)\s*->\s*)?(?P<field>m_\w+)(?P<post>\s*(?:\+\+|--|=(?!=)|\.\s*(?P<meth>\w+)\s*\())?")
@@ -120,7 +121,9 @@ def scan(body, name, helpers=()):
             if m.group("lop") == "lock": stack[-1].add(g)
             else: stack[-1].discard(g)
         elif m.group("rcall"):
-            key = "m_router." + m.group("rop") if m.group("rop") else "::unsubscribe"
+            # a qualified call of the wrapped (default) invoker reaches into the router's subjects: unsubscribe / mute / unmute
+            # modify them, isValid / isMuted read them
+            key = "m_router." + m.group("rop") if m.group("rop") else "::" + m.group("bop")
             if key not in ROUTER_CALLS:
                 raise RuntimeError(f"{name}: unknown router call {key}")
             accesses.append(("m_router", ROUTER_CALLS[key], frozenset(stack[-1])))
